@@ -62,7 +62,9 @@ class DensityMatrixEvolution(MatrixData, BasisManaged, Saveable):
 
         ti, dt = self.TimeAxis.locate(time)
 
-        return DensityMatrix(data=self.data[ti, :, :])
+        # the new object must own its data: a view of the storage of this
+        # object would be changed when this object changes basis
+        return DensityMatrix(data=self.data[ti, :, :].copy())
 
 
     def transform(self, SS, inv=None):
@@ -315,5 +317,7 @@ class ReducedDensityMatrixEvolution(DensityMatrixEvolution):
 
         ti, dt = self.TimeAxis.locate(time)
 
-        return ReducedDensityMatrix(data=self.data[ti, :, :])
+        # the new object must own its data: a view of the storage of this
+        # object would be changed when this object changes basis
+        return ReducedDensityMatrix(data=self.data[ti, :, :].copy())
 
